@@ -49,6 +49,6 @@ func extMarshal(f *frame, cm *ssa.CallCommon, args []Val, st *State, name string
 	st.heaps[seqH] = c.define("marshseq", "(Array Int Iface)", fmt.Sprintf("(ite %s (store %s %s %s) %s)", ok, seq, n, v, seq))
 	st.heaps[outH] = c.define("marshout", "(Array Int Slice)", fmt.Sprintf("(ite %s (store %s %s %s) %s)", ok, out, n, bs.T, out))
 	st.heaps[nH] = c.define("marshn", SInt, fmt.Sprintf("(ite %s (+ %s 1) %s)", ok, n, n))
-	c.assumed["external "+cm.StaticCallee().String()+": total, writes no modelled memory, result unconstrained; a ghost sequence records the value and the returned bytes of every successful call"] = true
+	c.assumed["external "+cm.StaticCallee().String()+": total, writes no modelled memory, result unconstrained; ghost sequences record the value of every call and the value and returned bytes of every successful call"] = true
 	return r
 }
